@@ -31,10 +31,15 @@ def keep_in_ops(recs, keep):
         yield r
 
 
+import itertools
+_SB_COUNTER = itertools.count()
+
+
 def step_bind(ctx, spec, driver, progs, consts, pb=2, max_exec=150, keep=None):
     """run the real code with step logging, validate every execution against <spec>_Step, collect the order table"""
-    xs = explore(ctx, 'steps_%s' % spec, driver, progs, mode='dfs', pb=pb, max_exec=max_exec, steps=True)
-    d = ctx.sub('sb_' + spec)
+    uid = '%s_%d' % (spec, next(_SB_COUNTER))      # several bindings of one spec may run side by side
+    xs = explore(ctx, 'steps_%s' % uid, driver, progs, mode='dfs', pb=pb, max_exec=max_exec, steps=True)
+    d = ctx.sub('sb_' + uid)
     stage_specs(d)
     tr = os.path.join(d, 'steps.ndjson')
     if keep:
